@@ -169,7 +169,14 @@ func (t *captureTransport) RoundTrip(req *http.Request) (*http.Response, error) 
 	if req.Body != nil {
 		payload, _ = io.ReadAll(req.Body)
 		req.Body.Close()
-		req.Body = io.NopCloser(bytes.NewReader(payload))
+		// keep a definite length: otherwise http.Request.Write falls back to Transfer-Encoding:
+		// chunked, whose framing is net/http's business, not the signature middleware's
+		req.ContentLength = int64(len(payload))
+		if len(payload) == 0 {
+			req.Body = http.NoBody
+		} else {
+			req.Body = io.NopCloser(bytes.NewReader(payload))
+		}
 	}
 	if err := req.Write(&buf); err != nil {
 		return nil, err
@@ -187,7 +194,7 @@ func (t *captureTransport) RoundTrip(req *http.Request) (*http.Response, error) 
 	if req.Header.Get("Authorization") == "" {
 		mode = "s3presign"
 	}
-	seen := verifx.SendWire(t.out, t.l, fmt.Sprintf("%s-%d", t.label, t.n), mode, w, t.ak, body, true)
+	seen := verifx.SendWire(t.out, t.l, fmt.Sprintf("%s-%d", t.label, t.n), mode, w, t.ak, payload, true)
 	t.n++
 	st := seen.Status
 	if st < 100 {
